@@ -234,6 +234,11 @@ func (p *Parser) ParseRemainingExpressionWithPrecedence(left ast.Expression, pre
 				return left
 			}
 		}
+		// ++ and -- never apply across a line break (ECMAScript restricted
+		// production): `a\n++b` is `a; ++b`, and `a\n++` is an error, not `a++`.
+		if p.PeekToken.AfterNewline && (p.PeekToken.Type == token.INCREMENT || p.PeekToken.Type == token.DECREMENT) {
+			return left
+		}
 		left = p.ParseInfixExpression(left)
 	}
 	return left
